@@ -1,6 +1,7 @@
 package checks
 
 import (
+	"crypto/ecdsa"
 	"encoding/json"
 	"fmt"
 	"github.com/inconshreveable/log15"
@@ -229,7 +230,11 @@ func (sr *syncRemote) handle(msg p2p.Msg) {
 
 // newSyncRemote connects over TCP/RLPx, completes the handshakes announcing `td`, and serves the node's requests.
 func newSyncRemote(s *wireServer, src *node.Node, plan map[string]string, r *rand.Rand, td uint64) (*syncRemote, error) {
-	c, err := s.dial(r)
+	return newSyncRemoteAs(s, src, plan, r, td, newKey(r))
+}
+
+func newSyncRemoteAs(s *wireServer, src *node.Node, plan map[string]string, r *rand.Rand, td uint64, key *ecdsa.PrivateKey) (*syncRemote, error) {
+	c, err := s.dialAs(r, key)
 	if err != nil {
 		return nil, err
 	}
